@@ -10,6 +10,7 @@ import (
 	"go/constant"
 	"go/token"
 	"go/types"
+	"sort"
 
 	"golang.org/x/tools/go/ssa"
 )
@@ -97,6 +98,10 @@ type Evaluator struct {
 	Bytes  bool
 	bufs   int
 	impure bool
+	// ranges over package-level map literals: entries are served in key order, or in
+	// reverse key order on the confirming second run (see Eval)
+	mapRanges int
+	revOrder  bool
 }
 
 // New returns an evaluator with default limits.
@@ -117,8 +122,48 @@ func B(b bool) Val { return Val{K: Const, C: constant.MakeBool(b)} }
 func (e *Evaluator) Eval(fn *ssa.Function, args []Val, env Env) (outs []Outcome, ok bool) {
 	e.fuel = e.Fuel
 	e.bufs, e.impure = 0, false
+	e.mapRanges, e.revOrder = 0, false
 	outs = e.eval(fn, args, env, 0)
-	return outs, e.fuel > 0 && !e.impure
+	ok = e.fuel > 0 && !e.impure
+	if ok && e.mapRanges > 0 {
+		// Go leaves the iteration order of a map unspecified: the result counts only
+		// when serving the entries in the opposite order gives the same outcomes
+		e.fuel = e.Fuel
+		e.bufs, e.revOrder = 0, true
+		outs2 := e.eval(fn, args, env, 0)
+		e.revOrder = false
+		if e.fuel <= 0 || e.impure || !sameOutcomes(outs, outs2) {
+			return outs, false
+		}
+	}
+	return outs, ok
+}
+
+func sameOutcomes(a, b []Outcome) bool {
+	key := func(os []Outcome) map[string]bool {
+		m := map[string]bool{}
+		for _, o := range os {
+			k := ""
+			for _, r := range o.Results {
+				k += r.String() + "|"
+			}
+			if o.Ret != nil {
+				k += string(rune(o.Ret.Pos()))
+			}
+			m[k] = true
+		}
+		return m
+	}
+	ka, kb := key(a), key(b)
+	if len(ka) != len(kb) {
+		return false
+	}
+	for k := range ka {
+		if !kb[k] {
+			return false
+		}
+	}
+	return true
 }
 
 type frame struct {
@@ -131,9 +176,11 @@ type frame struct {
 func (e *Evaluator) EvalFrom(start *ssa.BasicBlock, stop map[*ssa.BasicBlock]bool, env Env) (outs []Outcome, reachedStop bool, ok bool) {
 	e.fuel = e.Fuel
 	e.start, e.stop, e.hitStop = start, stop, false
+	e.mapRanges, e.revOrder = 0, false
 	outs = e.eval(start.Parent(), nil, env, 0)
 	e.start, e.stop = nil, nil
-	return outs, e.hitStop, e.fuel > 0
+	// a map was ranged over: the order-independence of the result is only confirmed by Eval
+	return outs, e.hitStop, e.fuel > 0 && e.mapRanges == 0
 }
 
 func (e *Evaluator) eval(fn *ssa.Function, args []Val, env Env, depth int) []Outcome {
@@ -416,6 +463,54 @@ func (e *Evaluator) step(vals map[ssa.Value]Val, v ssa.Value, pred *ssa.BasicBlo
 		return Val{}
 	case *ssa.Call:
 		return e.call(vals, x, env, depth)
+	case *ssa.Range:
+		// range over a complete package-level map literal: an iterator position
+		if ld, ok := x.X.(*ssa.UnOp); ok {
+			if g, isG := ld.X.(*ssa.Global); isG {
+				if tbl, complete := GlobalMap(g); tbl != nil && complete && globalMapKeys[g] != nil {
+					vals[iterKey{x}] = C(0)
+					e.mapRanges++
+					return Val{K: Ref}
+				}
+			}
+		}
+		return Val{}
+	case *ssa.Next:
+		rg, ok := x.Iter.(*ssa.Range)
+		pos, has := vals[iterKey{x.Iter}]
+		if !ok || !has || x.IsString || pos.K != Const {
+			return Val{}
+		}
+		g := rg.X.(*ssa.UnOp).X.(*ssa.Global)
+		tbl, _ := GlobalMap(g)
+		keys := make([]string, 0, len(tbl))
+		for k := range tbl {
+			keys = append(keys, k)
+		}
+		sort.Strings(keys)
+		if e.revOrder {
+			for i, j := 0, len(keys)-1; i < j; i, j = i+1, j-1 {
+				keys[i], keys[j] = keys[j], keys[i]
+			}
+		}
+		i, _ := constant.Int64Val(pos.C)
+		tt := x.Type().(*types.Tuple)
+		if int(i) >= len(keys) {
+			vals[tupleKey{x, 0}] = B(false)
+			vals[tupleKey{x, 1}] = zeroVal(tt.At(1).Type())
+			vals[tupleKey{x, 2}] = zeroVal(tt.At(2).Type())
+			return Val{}
+		}
+		kc, okK := globalMapKeys[g][keys[i]]
+		if !okK {
+			delete(vals, iterKey{x.Iter})
+			return Val{}
+		}
+		vals[iterKey{x.Iter}] = C(i + 1)
+		vals[tupleKey{x, 0}] = B(true)
+		vals[tupleKey{x, 1}] = wrap(Val{K: Const, C: kc}, tt.At(1).Type())
+		vals[tupleKey{x, 2}] = tbl[keys[i]]
+		return Val{}
 	case *ssa.Lookup:
 		// lookup in a package-level map literal with a known key
 		ld, ok := x.X.(*ssa.UnOp)
@@ -720,6 +815,16 @@ func (storeKey) Type() types.Type              { return nil }
 func (storeKey) Parent() *ssa.Function         { return nil }
 func (storeKey) Referrers() *[]ssa.Instruction { return nil }
 func (storeKey) Pos() token.Pos                { return token.NoPos }
+
+// iterKey holds the position of a map iterator (ssa.Range) in the value map.
+type iterKey struct{ v ssa.Value }
+
+func (iterKey) Name() string                  { return "iter" }
+func (iterKey) String() string                { return "iter" }
+func (iterKey) Type() types.Type              { return nil }
+func (iterKey) Parent() *ssa.Function         { return nil }
+func (iterKey) Referrers() *[]ssa.Instruction { return nil }
+func (iterKey) Pos() token.Pos                { return token.NoPos }
 
 // tupleKey addresses a component of a tuple-valued call in the value map.
 type tupleKey struct {
